@@ -4,6 +4,7 @@ package c02
 import (
 	"errors"
 	"fmt"
+	"runtime"
 	"net/http"
 	"net/http/httptest"
 	"net/url"
@@ -486,9 +487,9 @@ func TestC02_Regression(t *testing.T) {
 func TestC02_RacingAdmin(t *testing.T) {
 	rapid.Check(t, func(t *rapid.T) {
 		useRebalancer := rapid.Bool().Draw(t, "rebalancer")
-		nReq := rapid.IntRange(2, 6).Draw(t, "requesters")
-		rounds := rapid.IntRange(5, 40).Draw(t, "rounds")
-		perReq := rapid.IntRange(20, 200).Draw(t, "perRequester")
+		nReq := rapid.IntRange(2, 8).Draw(t, "requesters")
+		rounds := rapid.IntRange(20, 300).Draw(t, "rounds")
+		perReq := rapid.IntRange(50, 600).Draw(t, "perRequester")
 		var clk atomic.Int64
 		type obs struct {
 			s, e int64
@@ -511,6 +512,7 @@ func TestC02_RacingAdmin(t *testing.T) {
 		_ = p.UpsertServer(stable)
 		type absent struct{ from, to int64 }
 		var absents []absent
+		var resurrected atomic.Bool
 		var wg sync.WaitGroup
 		done := make(chan struct{})
 		wg.Add(1)
@@ -527,6 +529,16 @@ func TestC02_RacingAdmin(t *testing.T) {
 					panic("remove failed: " + err.Error())
 				}
 				lastRemoved = clk.Add(1)
+				// nobody re-adds x but this goroutine: once removed it must stay out of the pool,
+				// also when a request that was adjusting weights at that moment finishes its work
+				for k := 0; k < 3; k++ {
+					runtime.Gosched()
+					for _, u := range p.Servers() {
+						if u.Host == "x" {
+							resurrected.Store(true)
+						}
+					}
+				}
 			}
 			absents = append(absents, absent{lastRemoved, 1 << 62})
 		}()
@@ -551,6 +563,9 @@ func TestC02_RacingAdmin(t *testing.T) {
 			}()
 		}
 		wg.Wait()
+		if resurrected.Load() {
+			t.Fatalf("x was listed in the pool after RemoveServer(x) had returned and before anybody re-added it (rebalancer=%v)", useRebalancer)
+		}
 		sawX := 0
 		for _, o := range observations {
 			if o.host != "x" {
@@ -568,6 +583,19 @@ func TestC02_RacingAdmin(t *testing.T) {
 		}
 		if err := p.RemoveServer(x); err == nil {
 			t.Fatalf("x still removable after the admin goroutine removed it")
+		}
+		// quiescent: x was removed last, so it must be gone from the pool and receive nothing
+		for _, u := range p.Servers() {
+			if u.Host == "x" {
+				t.Fatalf("x was removed (RemoveServer returned nil) but is still listed: %v", p.Servers())
+			}
+		}
+		for i := 0; i < 20; i++ {
+			rec := httptest.NewRecorder()
+			p.ServeHTTP(rec, httptest.NewRequest("GET", "http://client/", nil))
+			if rec.Header().Get("X-Host") == "x" {
+				t.Fatalf("a request was routed to x after its removal had completed and everything was quiescent")
+			}
 		}
 		vstat.Case(fmt.Sprintf("race|%v|%d|%d|%d", useRebalancer, nReq, rounds, perReq), sawX > 0, []string{"racing-admin"}, map[string]any{"rebalancer": useRebalancer, "requesters": nReq, "rounds": rounds, "requests_routed_to_x": sawX})
 	})
